@@ -442,3 +442,17 @@ def bind_loop(ev: Evaluator, fr, loop: ast.For, env: Dict[str, Any]) -> Optional
     else:
         return None
     return LoopBinding(idx, lo, n, bindings, f"elements {lo}..len of {norm_text(seq_node)}")
+
+
+def borrow(rc, rule: str, *sections, note: str = ""):
+    """Run rule sections that belong to another property under this property's rule id `rule`: the contracts of the
+    helpers a property leans on are part of what has to hold for it (its own rules treat those helpers as opaque calls)."""
+    res = rc.res
+    sf, so = len(res.findings), len(res.obligations)
+    for sec in sections:
+        sec(rc)
+    for f in res.findings[sf:]:
+        f.message = f"[helper contract, {f.rule}] " + f.message
+        f.rule = rule
+    for o in res.obligations[so:]:
+        o.rule = rule
